@@ -19,7 +19,7 @@
    Part 4  GA / ES: the best solution held never gets worse (any comparator that is a strict weak order;
            ParetoDominance on one objective is one)
 
-   Nothing is left partial.  Axioms: none, except in the two statements c09_spea2_fitness_*_is_real, which speak
+   Nothing is left partial.  Axioms: none, except in the three statements c09_spea2_fitness_*_is_real / _never_one, which speak
    about real numbers (standard-library real-number axioms).  What the statements do NOT say (see META.level_note of the driver): IEEE rounding in
    crowding distances / epsilon boxes / SPEA2 distances is not modelled; SPEA2's fitness raw + 1/(d_k + 2) is
    represented by the pair (raw, d_k^2), which orders identically in real arithmetic; NSGA-III's reference-point
@@ -188,6 +188,10 @@ Proof. exact fit_lt_is_real_order. Qed.
 Theorem c09_spea2_fitness_lt1_is_real : forall a : fit, (0 <= f_dk2 a)%Q ->
   (fit_lt1 a = true <-> (fitR (f_raw a) (Q2R (f_dk2 a)) < 1)%R).
 Proof. exact fit_lt1_is_real. Qed.
+
+(* the fitness is never exactly 1 (so "<= 1.0" would be the same test as "< 1.0") *)
+Theorem c09_spea2_fitness_never_one : forall r d, (0 <= d)%R -> ((fitR r d <= 1)%R <-> r = 0%nat).
+Proof. exact fitR_le1_iff. Qed.
 
 Theorem c09_x_spea2_elitist : forall c dirs k (offspring population : list xsol) n surv,
   Forall (sol_wf xq xltb xzero dirs) (offspring ++ population) ->
